@@ -325,6 +325,7 @@ var zzRouteSetsH3 = [][]string{
 	{"/:p", "/:p/b", "/*w"},
 	{"/a/:p/c", "/a/b/:q", "/a/*w"},
 	{"/u/:id", "/u/:id/x", "/:y/z"},
+	{"/:x/:y", "/*w"},
 }
 
 // ZZ_C06_H3: dispatch through Engine.ServeHTTP (not the bare tree), so that the engine's choice
@@ -418,4 +419,61 @@ func ZZ_C06_H3() {
 		}
 	}
 	zz.Assert("param-values-are-the-matched-substrings", same)
+}
+
+// ZZ_C06_H4: patterns registered through groups. For group prefixes and relative paths with and
+// without trailing slashes (the "trailing-slash variants" of the property), the pattern that is
+// registered - and reported as full path - is prefix and relative path joined with exactly one
+// slash, keeping a trailing slash exactly when the relative path ends in one; a request for
+// the variant with the slash and one without reach only the route registered for it.
+func ZZ_C06_H4() {
+	prefix := []string{"/a", "/a/", "/a/b"}[zz.Choose("groupPrefix", 3)]
+	rel := []string{"", "/", "/x", "/x/", "x"}[zz.Choose("relativePath", 5)]
+	// expected absolute pattern
+	base := prefix
+	for len(base) > 1 && base[len(base)-1] == '/' {
+		base = base[:len(base)-1]
+	}
+	want := base
+	r := rel
+	for len(r) > 0 && r[0] == '/' {
+		r = r[1:]
+	}
+	trailing := len(rel) > 0 && rel[len(rel)-1] == '/'
+	core := r
+	for len(core) > 0 && core[len(core)-1] == '/' {
+		core = core[:len(core)-1]
+	}
+	if core != "" {
+		want = base + "/" + core
+	}
+	if rel == "" {
+		want = prefix // an empty relative path registers the group's own path as it is
+	} else if trailing {
+		want += "/"
+	}
+	e := zzNewEngine()
+	g := e.Group(prefix)
+	hit := ""
+	g.GET(rel, func(c context.Context, ctx *app.RequestContext) { hit = ctx.FullPath() })
+	// the request path is the expected pattern itself, or its trailing-slash twin
+	twin := want + "/"
+	if want[len(want)-1] == '/' && len(want) > 1 {
+		twin = want[:len(want)-1]
+	}
+	target := want
+	if zz.Choose("requestTwin", 2) == 1 {
+		target = twin
+	}
+	ctx := app.NewContext(0)
+	ctx.Request.SetHost("h")
+	ctx.Request.Header.SetMethod("GET")
+	ctx.Request.SetRequestURI(target)
+	e.ServeHTTP(context.Background(), ctx)
+	zz.Cover("reached-assert", true)
+	if target == want {
+		zz.Assert("registered-pattern-is-prefix-joined-with-relative-path", hit == want)
+	} else {
+		zz.Assert("trailing-slash-twin-does-not-run-the-handler", hit == "")
+	}
 }
